@@ -18,7 +18,7 @@ func (p *TagsUpdate) Decode(c *proto.PacketContext, rd io.Reader) (err error) {
 		return err
 	}
 
-	p.Tags = make(map[string]map[string][]int, size)
+	p.Tags = make(map[string]map[string][]int, min(max(size, 0), util.MaxPreAllocSize))
 	for i := 0; i < size; i++ {
 		key, err := util.ReadString(rd)
 		if err != nil {
@@ -30,7 +30,7 @@ func (p *TagsUpdate) Decode(c *proto.PacketContext, rd io.Reader) (err error) {
 			return err
 		}
 
-		innerMap := make(map[string][]int, innerSize)
+		innerMap := make(map[string][]int, min(max(innerSize, 0), util.MaxPreAllocSize))
 		for j := 0; j < innerSize; j++ {
 			innerKey, err := util.ReadString(rd)
 			if err != nil {
